@@ -7,14 +7,29 @@
                            random programs of 2-4 model threads under random schedules; the boolean
                            invariant inv_b is evaluated after every step and, when every thread has
                            finished and every claim has been freed, the bitmap must equal the initial one
-   mode "bitmap-trace": interface for a schedule-lockstep comparison with a log of the real code
-     I <field0> <field1> ...           initial bitmap
-     P <tid> claim <start> <count>     append an operation to the program of thread <tid>
-     P <tid> free <start> <count>
-     P <tid> purge <bitmap_idx> <len>
-     X <tid> <tid> ...                 the schedule (may be given on several lines)
-   output: one line `A <tid> <field index> <old value> <new value>` per atomic access of the model,
-   then `R <tid> <results of its operations in order>` and `B <final bitmap>`. *)
+   mode "bitmap-trace": SCHEDULE-LOCKSTEP replay of a log of the REAL code (harness/s_arena.c: src/bitmap.c /
+   src/arena.c in virtual threads under the deterministic scheduler, every mi_atomic_* a scheduling point) on
+   the small-step machine of Model/Bitmap.v.  Log records (format: header of harness/s_arena.c):
+     I <field0> ...                    the bitmap when the scheduler starts (= `pre` of the theorems)
+     A <tid> claim <start> <count>     call brackets; the model thread gets the program [OpClaim start count]
+     A <tid> alloc <blocks>            _mi_arena_alloc_aligned            = [OpClaim 0 blocks]
+     A <tid> free <idx> <count>        _mi_bitmap_unclaim(_across)        = [OpFree idx count]
+     A <tid> afree <block> <blocks>    _mi_arena_free                     = [OpFree block blocks], then purge operations
+     A <tid> purge <idx> <len>         the purger's claim/unclaim         = [OpPurge idx len]
+     A <tid> collect <force>           _mi_arenas_collect                 = purge operations
+     A <tid> isclaimed <idx> <count>   observer (not a machine operation): its loads must read the model's field values
+     S <tid> <field> <kind> <old> <new>  one atomic access: the model thread must take EXACTLY this step: stepx gives the
+                                       same field, the same old and new value, and the pc is of the same kind
+                                       (L load, C successful CAS, F failed CAS, W store, A fetch-and); inv_b after every step
+     R <tid> <result>                  the call returned: the model thread must be idle, the results must agree
+     B <field0> ...                    quiescence: every model thread idle, no completed claim left, bitmap = logged = initial
+   Purge operations inside `afree` / `collect` (mi_arenas_try_purge -> mi_arena_try_purge) have arguments the harness
+   cannot see (static functions of arena.c): the replay keeps the SET of program counters consistent with the log
+   (an idle thread may start OpPurge bi len for any range of the accessed field; the set collapses at the first
+   successful CAS, whose new value fixes the mask); MISMATCH when the set becomes empty.
+   Output: MISMATCH lines, `STAT bitmap-lockstep ...` and `PC <pc>=<count> ...` (which machine pcs were exercised).
+   Legacy interface of the same mode (model only): I / P <tid> claim|free|purge <a> <c> / X <tid> ... prints the model's
+   accesses `A <tid> <field> <old> <new>`, `R <tid> <results>` and `B <final bitmap>`. *)
 open BinNums
 open Util
 module L = Stdlib.List
@@ -242,34 +257,245 @@ let mode_bitmap (records : int ref) (mismatches : int ref) =
    with End_of_file -> ());
   Printf.printf "MINFO machine_solo_checked=%d\n" !solo_checked
 
+(* ---- schedule-lockstep replay of a real-code log ---- *)
+let pc_name = function
+  | Bitmap.Idle -> "Idle" | Bitmap.FLoad _ -> "FLoad" | Bitmap.FCas _ -> "FCas" | Bitmap.ALoad _ -> "ALoad"
+  | Bitmap.AScan _ -> "AScan" | Bitmap.AInitLoad _ -> "AInitLoad" | Bitmap.AInitCas _ -> "AInitCas"
+  | Bitmap.AMidCas _ -> "AMidCas" | Bitmap.AFinalLoad _ -> "AFinalLoad" | Bitmap.AFinalCas _ -> "AFinalCas"
+  | Bitmap.ARollStore _ -> "ARollStore" | Bitmap.ARollInitLoad _ -> "ARollInitLoad" | Bitmap.ARollInitCas _ -> "ARollInitCas"
+  | Bitmap.UPre _ -> "UPre" | Bitmap.UMid _ -> "UMid" | Bitmap.UPost _ -> "UPost"
+  | Bitmap.PLoad _ -> "PLoad" | Bitmap.PCas _ -> "PCas" | Bitmap.PUnclaim _ -> "PUnclaim"
+let all_pc_keys = ["FLoad"; "FCas.ok"; "FCas.fail"; "ALoad"; "AScan"; "AInitLoad"; "AInitCas.ok"; "AInitCas.fail"; "AMidCas.ok"; "AMidCas.fail";
+                   "AFinalLoad"; "AFinalCas.ok"; "AFinalCas.fail"; "ARollStore"; "ARollInitLoad"; "ARollInitCas.ok"; "ARollInitCas.fail";
+                   "UPre"; "UMid"; "UPost"; "PLoad"; "PCas.ok"; "PCas.fail"; "PUnclaim"]
+let neq a b = BinNat.N.eqb a b
+(* the kind of access the pc performs when the field holds v *)
+let expect_kind pc v =
+  let cas e = if neq v e then "C" else "F" in
+  match pc with
+  | Bitmap.FLoad _ | Bitmap.ALoad _ | Bitmap.AScan _ | Bitmap.AInitLoad _ | Bitmap.AFinalLoad _ | Bitmap.ARollInitLoad _ | Bitmap.PLoad _ -> "L"
+  | Bitmap.FCas (_, m, _, _) -> cas m
+  | Bitmap.AInitCas (_, m) | Bitmap.AFinalCas (_, m) | Bitmap.ARollInitCas (_, m) -> cas m
+  | Bitmap.AMidCas _ -> cas N0
+  | Bitmap.PCas (_, _, e) -> cas e
+  | Bitmap.ARollStore _ -> "W"
+  | Bitmap.UPre _ | Bitmap.UMid _ | Bitmap.UPost _ | Bitmap.PUnclaim _ -> "A"
+  | Bitmap.Idle -> "?"
+let hist_key pc kind = match kind with "C" -> pc_name pc ^ ".ok" | "F" -> pc_name pc ^ ".fail" | _ -> pc_name pc
+
+type tinfo = { mutable call : string;            (* the open call bracket, "" = none *)
+               mutable infer : bool;             (* purge operations with unknown arguments may run: `cands` is the set of possible pcs *)
+               mutable infer_after : bool;       (* afree: inference starts when the OpFree has completed *)
+               mutable cands : Bitmap.pc list;
+               mutable last_res : Bitmap.gev option }   (* result of the definite operation of the call *)
+let max_threads = 6
+
 let mode_trace (records : int ref) (mismatches : int ref) =
-  let bm = ref [] and progs = Hashtbl.create 8 and sched = ref [] and maxt = ref (-1) in
+  let pre = ref [] and s = ref (Bitmap.init_state [] []) and started = ref false in
+  let info = Array.init max_threads (fun _ -> { call = ""; infer = false; infer_after = false; cands = []; last_res = None }) in
+  let hist : (string, int) Hashtbl.t = Hashtbl.create 32 in
+  let ghist : (string, int) Hashtbl.t = Hashtbl.create 16 in
+  let bump h k = Hashtbl.replace h k (1 + (try Hashtbl.find h k with Not_found -> 0)) in
+  let lineno = ref 0 and nsteps = ref 0 and ninv = ref 0 and nobs = ref 0 and ncalls = ref 0 and ninfer = ref 0 and maxc = ref 0 in
+  let dead = ref false in         (* after the first mismatch the model state is no longer synchronised with the log *)
+  let legacy_progs = Hashtbl.create 8 and legacy_sched = ref [] and legacy_maxt = ref (-1) in
+  let mismatch fmt = Printf.ksprintf (fun m ->
+      incr mismatches; dead := true;
+      if !mismatches <= 5 then Printf.printf "MISMATCH lockstep line %d: %s\n" !lineno m) fmt in
+  let thread t = L.nth !s.Bitmap.s_thr t in
+  let set_thread st t f = { st with Bitmap.s_thr = L.mapi (fun i th -> if i = t then f th else th) st.Bitmap.s_thr } in
+  let fields () = nlen !s.Bitmap.s_bm in
+  let acting_pc st (prog, pc) = match pc, prog with
+    | Bitmap.Idle, o :: _ -> let ((p, _), _) = Bitmap.enter (nlen st.Bitmap.s_bm) st.Bitmap.s_pool o in p
+    | p, _ -> p in
+  (* one configuration (prog, pc) of thread t takes the logged step, or cannot *)
+  let try_step t (prog, pc) f kind old nw =
+    let s0 = set_thread !s t (fun th -> { th with Bitmap.t_prog = prog; Bitmap.t_pc = pc }) in
+    let act = acting_pc s0 (prog, pc) in
+    match Bitmap.stepx s0 (nat_of_int t) with
+    | Some (s', Some ((i, v), w)) when neq i f && neq v old && neq w nw && expect_kind act v = kind -> Some (s', act)
+    | _ -> None in
+  let describe t (prog, pc) =
+    let s0 = set_thread !s t (fun th -> { th with Bitmap.t_prog = prog; Bitmap.t_pc = pc }) in
+    let act = acting_pc s0 (prog, pc) in
+    match Bitmap.stepx s0 (nat_of_int t) with
+    | Some (_, Some ((i, v), w)) -> Printf.sprintf "the model thread is at %s: %s field %s %s -> %s" (pc_name act) (expect_kind act v) (sn i) (sn v) (sn w)
+    | Some (_, None) -> Printf.sprintf "the model thread (at %s) ends its operation without an atomic access" (pc_name act)
+    | None -> "the model thread is idle (no operation in progress)" in
+  let check_inv what =
+    incr ninv;
+    if not (Bitmap.inv_b !pre !s) then mismatch "inv_b is false after %s (model bitmap %s)" what (String.concat " " (fields_str !s.Bitmap.s_bm)) in
+  let op_done t =         (* the definite operation of thread t has completed *)
+    let th = thread t in
+    (match th.Bitmap.t_res with r :: _ -> info.(t).last_res <- Some r; bump ghist (match r with
+        | Bitmap.GClaimed (st0, c) -> if BinNat.N.div st0 n64 <> BinNat.N.div (BinNat.N.sub (BinNat.N.add st0 c) (n_of_int 1)) n64 then "claimed-cross-field" else "claimed"
+        | Bitmap.GClaimFailed -> "claim-failed" | Bitmap.GFreed _ -> "freed" | Bitmap.GSkipped -> "skipped"
+        | Bitmap.GPurgeFailed -> "purge-failed" | Bitmap.GPurged _ -> "purged" | Bitmap.GNone -> "none") | [] -> ());
+    if info.(t).infer_after then begin info.(t).infer_after <- false; info.(t).infer <- true; info.(t).cands <- [Bitmap.Idle] end in
+  let on_step t f kind old nw line =
+    incr nsteps;
+    let ti = info.(t) in
+    if ti.call = "" then mismatch "atomic access to the bitmap outside a call bracket: %s" line
+    else if ti.call = "isclaimed" then begin
+      incr nobs;
+      if not (kind = "L" && neq old nw && neq old (Bitmap.getf !s.Bitmap.s_bm f)) then
+        mismatch "observer access `%s`: the model bitmap holds %s in field %s" line (sn (Bitmap.getf !s.Bitmap.s_bm f)) (sn f)
+    end
+    else if ti.infer then begin
+      (* purge operations with unknown arguments: every possible pc of the thread takes the step or is dropped.
+         The candidates are filtered with the model's own step function (Bitmap.enter / access_field / exec, the
+         parts stepx is made of); the state is advanced with stepx on the first survivor (all survivors write the
+         same value and purge operations never touch the pool, so the shared state is the same for all of them) *)
+      let fl = fields () in
+      let v = Bitmap.getf !s.Bitmap.s_bm f in
+      let before = L.concat (L.map (fun c ->
+          if c = Bitmap.Idle then
+            (if kind <> "L" then [] else
+               L.concat (L.init 64 (fun bit -> L.filter_map (fun l ->
+                   let ((p, _), _) = Bitmap.enter fl !s.Bitmap.s_pool (Bitmap.OpPurge (Bitmap.index_create f (n_of_int bit), n_of_int (l + 1))) in
+                   if p = Bitmap.Idle then None else Some p) (L.init (64 - bit) (fun l -> l)))))
+          else [c]) ti.cands) in
+      let surv = L.filter_map (fun pc ->
+          if neq (Bitmap.access_field pc) f && neq v old && expect_kind pc v = kind then
+            let ((pc', w), _) = Bitmap.exec fl pc v in
+            if neq (match w with Some x -> x | None -> v) nw then Some (pc, pc') else None
+          else None) before in
+      (match surv with
+       | [] -> mismatch "no purge operation of the model can take the step `%s` (model field value %s; %d candidate pcs%s)" line (sn v) (L.length ti.cands)
+                 (match ti.cands with [c] when c <> Bitmap.Idle -> "; " ^ describe t ([], c) | _ -> "")
+       | (act, _) :: _ ->
+         (match try_step t ([], act) f kind old nw with
+          | None -> mismatch "internal: stepx disagrees with exec on `%s`" line
+          | Some (s', _) ->
+            bump hist (hist_key act kind); incr ninfer;
+            let pcs = L.sort_uniq compare (L.map snd surv) in
+            if L.length pcs > !maxc then maxc := L.length pcs;
+            (match act with Bitmap.PUnclaim _ -> bump ghist "purged-inferred" | _ -> ());
+            s := set_thread s' t (fun th -> { th with Bitmap.t_prog = [] });
+            ti.cands <- pcs;
+            check_inv ("`" ^ line ^ "`")))
+    end
+    else begin
+      let th = thread t in
+      if th.Bitmap.t_pc = Bitmap.Idle && th.Bitmap.t_prog = [] then
+        mismatch "`%s`: the operation of the model thread has already completed (%s)" line
+          (match ti.last_res with Some r -> string_of_gev r | None -> "no result")
+      else
+        (match try_step t (th.Bitmap.t_prog, th.Bitmap.t_pc) f kind old nw with
+         | None -> mismatch "`%s`: %s" line (describe t (th.Bitmap.t_prog, th.Bitmap.t_pc))
+         | Some (s', act) ->
+           bump hist (hist_key act kind);
+           s := s';
+           let th' = thread t in
+           if th'.Bitmap.t_pc = Bitmap.Idle && th'.Bitmap.t_prog = [] then op_done t;
+           check_inv ("`" ^ line ^ "`"))
+    end in
+  let on_call t kind args line =
+    incr ncalls; incr records;
+    let ti = info.(t) in
+    if ti.call <> "" then mismatch "`%s` inside the open call `%s` of the same thread" line ti.call
+    else begin
+      ti.call <- kind; ti.last_res <- None; ti.infer <- false; ti.infer_after <- false; ti.cands <- [];
+      let th = thread t in
+      if not (th.Bitmap.t_pc = Bitmap.Idle && th.Bitmap.t_prog = []) then mismatch "`%s`: the model thread is not idle" line
+      else
+        let setp o = s := set_thread !s t (fun th -> { th with Bitmap.t_prog = [o] }) in
+        (match kind, args with
+         | "claim", [a; c] -> setp (Bitmap.OpClaim (a, c))
+         | "alloc", [c] -> setp (Bitmap.OpClaim (N0, c))
+         | "free", [a; c] -> setp (Bitmap.OpFree (a, c))
+         | "afree", [a; c] -> setp (Bitmap.OpFree (a, c)); ti.infer_after <- true
+         | "purge", [a; c] -> setp (Bitmap.OpPurge (a, c))
+         | "collect", _ -> ti.infer <- true; ti.cands <- [Bitmap.Idle]
+         | "isclaimed", _ -> ()
+         | _ -> mismatch "unknown call `%s`" line)
+    end in
+  let on_return t res line =
+    let ti = info.(t) in
+    if ti.call = "" then mismatch "`%s` without an open call" line
+    else begin
+      (if ti.call = "isclaimed" then ()
+       else if ti.infer then begin
+         if not (L.mem Bitmap.Idle ti.cands) then
+           mismatch "`%s`: the call returned but the model thread is inside a purge operation (%s)" line
+             (String.concat "|" (L.map pc_name ti.cands))
+       end
+       else begin
+         (* a degenerate operation ends without an atomic access *)
+         let th = thread t in
+         if th.Bitmap.t_pc = Bitmap.Idle && th.Bitmap.t_prog <> [] then
+           (match Bitmap.stepx !s (nat_of_int t) with
+            | Some (s', None) -> s := s'; op_done t
+            | _ -> mismatch "`%s`: the call returned without any atomic access but %s" line (describe t (th.Bitmap.t_prog, th.Bitmap.t_pc)));
+         let th = thread t in
+         if not (th.Bitmap.t_pc = Bitmap.Idle && th.Bitmap.t_prog = []) then
+           mismatch "`%s`: the call returned but %s" line (describe t (th.Bitmap.t_prog, th.Bitmap.t_pc))
+       end);
+      (if not !dead && ti.call <> "isclaimed" && ti.call <> "collect" then
+         let model = (match ti.last_res with
+             | Some (Bitmap.GClaimed (st0, _)) -> ["1"; sn st0]
+             | Some Bitmap.GClaimFailed -> ["0"]
+             | Some (Bitmap.GFreed a) -> if ti.call = "afree" then (if a then [] else ["double-free"]) else [b a]
+             | Some (Bitmap.GPurged l) -> [sn l]
+             | Some Bitmap.GPurgeFailed -> ["0"]
+             | Some Bitmap.GSkipped -> ["skipped"]
+             | _ -> ["?"]) in
+         if model <> res then mismatch "`%s` (call %s): the model's result is `%s`" line ti.call (String.concat " " model));
+      ti.call <- ""; ti.infer <- false; ti.infer_after <- false; ti.cands <- [];
+      s := set_thread !s t (fun th -> { th with Bitmap.t_prog = []; Bitmap.t_pc = (if !dead then th.Bitmap.t_pc else Bitmap.Idle) })
+    end in
   (try
      while true do
-       match split_ws (input_line stdin) with
-       | "I" :: f -> bm := L.map n_of_string f
+       let line = input_line stdin in
+       incr lineno;
+       if not !dead then
+       match split_ws line with
+       | "I" :: f ->
+         pre := L.map n_of_string f;
+         s := Bitmap.init_state !pre (L.init max_threads (fun _ -> []));
+         started := true;
+         if not (Bitmap.inv_b !pre !s) then mismatch "inv_b is false on the initial bitmap"
        | ["P"; t; kind; a; c] ->
          incr records;
          let t = int_of_string t in
-         if t > !maxt then maxt := t;
+         if t > !legacy_maxt then legacy_maxt := t;
          let o = (match kind with
              | "claim" -> Bitmap.OpClaim (n_of_string a, n_of_string c)
              | "free" -> Bitmap.OpFree (n_of_string a, n_of_string c)
              | "purge" -> Bitmap.OpPurge (n_of_string a, n_of_string c)
              | _ -> failwith "P: claim|free|purge") in
-         Hashtbl.replace progs t ((try Hashtbl.find progs t with Not_found -> []) @ [o])
-       | "X" :: ts -> sched := !sched @ L.map int_of_string ts
+         Hashtbl.replace legacy_progs t ((try Hashtbl.find legacy_progs t with Not_found -> []) @ [o])
+       | "X" :: ts -> legacy_sched := !legacy_sched @ L.map int_of_string ts
+       | "A" :: t :: kind :: args when !started && int_of_string t < max_threads -> on_call (int_of_string t) kind (L.map n_of_string args) line
+       | ["S"; t; f; kind; old; nw] when !started && int_of_string t < max_threads -> on_step (int_of_string t) (n_of_string f) kind (n_of_string old) (n_of_string nw) line
+       | "R" :: t :: res when !started && int_of_string t < max_threads -> on_return (int_of_string t) res line
+       | "B" :: f when !started ->
+         let logged = L.map n_of_string f in
+         if not (Bitmap.finished !s) then mismatch "quiescence: a model thread is not idle"
+         else if !s.Bitmap.s_pool <> [] then mismatch "quiescence: %d completed claims are left in the model's pool" (L.length !s.Bitmap.s_pool)
+         else if !s.Bitmap.s_bm <> logged then mismatch "quiescence: logged bitmap %s, model bitmap %s" (String.concat " " f) (String.concat " " (fields_str !s.Bitmap.s_bm))
+         else if !s.Bitmap.s_bm <> !pre then mismatch "quiescence: the bitmap %s differs from the initial one although every claim was freed (contradicts C14_all_freed_restores)" (String.concat " " f)
+       | ("S" | "A" | "R" | "B") :: _ -> mismatch "malformed or unexpected record `%s`" line
        | _ -> ()
      done
    with End_of_file -> ());
-  let s0 = Bitmap.init_state !bm (L.init (!maxt + 1) (fun t -> try Hashtbl.find progs t with Not_found -> [])) in
-  let nsched = L.map nat_of_int !sched in
-  L.iter (fun (((t, i), v), w) -> Printf.printf "A %d %s %s %s\n" (int_of_nat t) (sn i) (sn v) (sn w)) (Bitmap.run_trace s0 nsched);
-  let s = Bitmap.run_schedule s0 nsched in
-  L.iteri (fun t th -> Printf.printf "R %d %s%s\n" t (String.concat " " (L.rev_map string_of_gev th.Bitmap.t_res))
-              (if th.Bitmap.t_pc = Bitmap.Idle && th.Bitmap.t_prog = [] then "" else " (unfinished)")) s.Bitmap.s_thr;
-  Printf.printf "B %s\n" (String.concat " " (fields_str s.Bitmap.s_bm));
-  if not (Bitmap.inv_b !bm s) then (incr mismatches; Printf.printf "MISMATCH trace: inv_b false at the end of the schedule\n")
+  if !started then begin
+    Printf.printf "STAT bitmap-lockstep lines=%d atomic_steps=%d inv_b_checks=%d calls=%d observer_loads=%d inferred_purge_steps=%d max_candidate_pcs=%d\n"
+      !lineno !nsteps !ninv !ncalls !nobs !ninfer !maxc;
+    Printf.printf "PC %s\n" (String.concat " " (L.map (fun k -> Printf.sprintf "%s=%d" k (try Hashtbl.find hist k with Not_found -> 0)) all_pc_keys));
+    Printf.printf "EV %s\n" (String.concat " " (Hashtbl.fold (fun k v acc -> Printf.sprintf "%s=%d" k v :: acc) ghist []))
+  end;
+  if !legacy_sched <> [] then begin
+    let bm = !pre in
+    let s0 = Bitmap.init_state bm (L.init (!legacy_maxt + 1) (fun t -> try Hashtbl.find legacy_progs t with Not_found -> [])) in
+    let nsched = L.map nat_of_int !legacy_sched in
+    L.iter (fun (((t, i), v), w) -> Printf.printf "A %d %s %s %s\n" (int_of_nat t) (sn i) (sn v) (sn w)) (Bitmap.run_trace s0 nsched);
+    let s = Bitmap.run_schedule s0 nsched in
+    L.iteri (fun t th -> Printf.printf "R %d %s%s\n" t (String.concat " " (L.rev_map string_of_gev th.Bitmap.t_res))
+                (if th.Bitmap.t_pc = Bitmap.Idle && th.Bitmap.t_prog = [] then "" else " (unfinished)")) s.Bitmap.s_thr;
+    Printf.printf "B %s\n" (String.concat " " (fields_str s.Bitmap.s_bm));
+    if not (Bitmap.inv_b bm s) then (incr mismatches; Printf.printf "MISMATCH trace: inv_b false at the end of the schedule\n")
+  end
 
 let () =
   Modes.register "bitmap" mode_bitmap;
